@@ -192,7 +192,7 @@ fn parse_time_str(timestamp: &str) -> u64 {
     let dot_idx = timestamp.find('.').unwrap_or(timestamp.len());
 
     let timestamp_secs_us: u64 =
-        timestamp[0..dot_idx].parse::<u64>().unwrap_or_default() * US_PER_SEC;
+        timestamp[0..dot_idx].parse::<u32>().unwrap_or_default() as u64 * US_PER_SEC; // more than u32::MAX secs is treated as parsing error (and would overflow)
 
     let timestamp_fraction_us = if dot_idx < timestamp.len() {
         let timestamp_fraction_str = &timestamp[dot_idx + 1..];
@@ -258,7 +258,8 @@ fn parse_mmdd_str(mmdd: &str, ref_date: &NaiveDate) -> Option<NaiveDate> {
 /// parse a string in logcat threadtime format:
 /// mm-dd hh:mm:ss.mss
 fn parse_threadtime_str(timestamp: &str, ref_date: &NaiveDate) -> Option<NaiveDateTime> {
-    if timestamp.len() != 18 {
+    if timestamp.len() != 18 || !timestamp.is_ascii() {
+        // (the regex \d matches non ascii digits as well but the fixed offsets below are valid for ascii only)
         None
     } else {
         let date = parse_mmdd_str(&timestamp[0..5], ref_date).unwrap_or(*ref_date);
@@ -393,6 +394,7 @@ where
                                     )
                                     .num_microseconds()
                                     .unwrap_or_default()
+                                    .max(0) // a threadtime from the prev. year is before the start
                                     as u64;
                                 self.threadtime_last_monotonic_timestamp = timestamp_us;
                                 (timestamp_us, self.recorded_start_time_us + timestamp_us)
